@@ -453,6 +453,10 @@ def scaling_rules(chk, S, r3):
         ok2 = ok2 and base.op == "pow" and nf.norm(base.args[0]) == nf.const(2) and num is not None and nf.canon(num) is base.args[1]
         r3.require(ok2, "_exp_gram_cholesky_init scaling", "A / 2^s and B / sqrt(2^s) with the returned s", f"A_scaled = {nf.show(pa)}, B_scaled = {nf.show(pb)}, s = {T.show(num, 3)}", where_of(c, where))
         r3.require(isinstance(out, (tuple, list)) and T.mk("getitem", (c, 0)) is out[0] and T.mk("getitem", (c, 1)) is out[1], "_exp_gram_cholesky_init returns init's (eA, S)", "", f"{T.show(out, 3)}", where)
+        # the number of doublings is clamped at zero: a negative s would scale A, B *up* and the loop `i < s` never undoes it
+        from .. import bounds as Bd
+        r3.require(num is not None and Bd.Bounds().prove_le(0, num), "_exp_gram_cholesky_init s >= 0", "number of doublings has the lower bound 0",
+                   f"s = {T.show(num, 5)} has no proven lower bound 0 (for small matrices log2(norm/eta) is negative)", where_of(num, where))
     # doubling step
     g = it.function_value(f"{GRAM}._exp_gram_cholesky_double")
     i, eA, U = A("i"), A("eA"), A("U")
